@@ -66,6 +66,30 @@ def run(c, replay):
                 c.violation("peek-above-inserted-message" if vals.get("BADPEEK") else "lost-or-duplicated",
                             dict(kind="property", what="free-running: %s" % vals, how="harness/drv_queue_stress %d %d" % (p, it)), True)
     c.cov["free_running_peek_queries"] = stress
+    # ---- the queues inside the runtime: messages are inserted into another worker's buffer from the very first instant (LP_INIT handlers that
+    # schedule events for LPs of other threads) until shutdown; every one of them must be extracted exactly once: final digests = reference
+    import simrun as S, progen
+    from checks import simcommon as C
+    oks, lgs, sexe = S.build_sim(sd)
+    nsim = nsim_ok = 0
+    if oks:
+        for k in range(6 if c.tier == "quick" else 60):
+            ps = progen.gen_program(r, lps=r.choice([8, 12, 16]), target=r.choice([10, 25]), sparse=True)       # several initial events per LP
+            pfs = os.path.join(sd, "qsim%d.txt" % k)
+            open(pfs, "w").write(progen.render(ps))
+            ref = S.run_seq(mexe, pfs, stop=False)
+            for th in (r.choice([2, 3, 4]), r.choice([8, 16])):
+                res = S.run_sim(sexe, pfs, threads=th, ckpt=r.choice([1, 3]), gvt=r.choice([100, 1000]), watchdog=25, timeout=60, init_via=True)
+                nsim += 1
+                if res.sanitizer:
+                    C.sanitizer_violation(c, res, progen.render(ps), dict(threads=th, init_via=True))
+                elif res.returned:
+                    nsim_ok += 1
+                    if res.final != ref.final:
+                        c.violation("message-lost-or-duplicated-in-a-run", dict(kind="property", what="final digests differ from the reference: a message inserted into "
+                                    "another worker's queue was lost, duplicated or extracted out of order", program=progen.render(ps),
+                                    config=dict(threads=th, cmd=res.cmd + "  with VERIF_INIT_VIA=1")), True)
+    c.cov.update(simulation_runs_with_cross_thread_initial_events=nsim, of_which_returned=nsim_ok)
     if corr_bad and not c.violations:
         c.violation("queue-answer-differs" if corr_bad[1] else "correspondence", corr_bad[0], found_input=corr_bad[1])
     if not proof_ok and not c.violations:
